@@ -516,8 +516,8 @@ func explore(r *report.R, n, depth int, roots [][]Ev, onFrontier func([][]Ev)) s
 
 // depthFor gives the history depth per cluster size and tier.
 func depthFor(r *report.R, n int) int {
-	quick := map[int]int{1: 7, 2: 6, 3: 4, 4: 3, 5: 3}
-	thorough := map[int]int{1: 9, 2: 7, 3: 5, 4: 5, 5: 4}
+	quick := map[int]int{1: 7, 2: 5, 3: 4, 4: 3, 5: 3}
+	thorough := map[int]int{1: 9, 2: 6, 3: 5, 4: 4, 5: 4}
 
 	return r.Pick(quick[n], thorough[n])
 }
